@@ -231,7 +231,7 @@ func c06Check(ctx *engine.Ctx, art c06Artefact, origView TokView, orig, mutated 
 
 func c06ByteSub() *engine.Sub {
 	arts := func(tier string) []c06Artefact {
-		algs := []string{"ed25519", "secp256k1", "p256"}
+		algs := []string{"ed25519", "secp256k1", "p256", "rsa2048"}
 		if tier == "thorough" {
 			algs = []string{"ed25519", "secp256k1", "p256", "p384", "p521", "rsa2048"}
 		}
@@ -296,7 +296,12 @@ func c06ByteSub() *engine.Sub {
 				origTok, err = token.FromDagCbor(orig)
 			}
 			if err != nil {
-				panic(fmt.Sprintf("harness: base artefact %+v does not decode: %v", cs.Art, err))
+				// the genuine, freshly sealed artefact is rejected: cannot happen on a deterministic
+				// library (C07 would report it for every token); reported here so that a decoder
+				// that fails intermittently is a finding and not a harness crash
+				ctx.Outcome("genuine-artefact-rejected")
+				ctx.Failf(cs, "genuine-artefact-rejected", "the unmodified %s artefact of %s/%s is rejected: %v", cs.Art.Codec, cs.Art.Kind, cs.Art.Alg, err)
+				return
 			}
 			origView := ViewOf(origTok)
 			ctx.States(1)
@@ -352,7 +357,7 @@ func c06RewriteSub() *engine.Sub {
 		Rule: "envelopes rebuilt with the harness' own assembler: every payload field replaced by every alternative value or dropped while keeping the old signature; the same SigPayload signed by another key of the same and of every other algorithm; the header replaced by every other algorithm's header, truncated, extended, emptied, both with the old signature and re-signed by the issuer; the signature truncated to every length, emptied, extended; signature and header taken from another valid token of the same issuer. Every decoder must reject, or return the original content with an independently verifiable signature; non-trivial = all",
 		Bound: func(t string) string { return "2 kinds x 3 (quick) / 7 (thorough) algorithms" },
 		Gen: func(tier string, emit func(any) bool) {
-			algs := []string{"ed25519", "secp256k1", "p256"}
+			algs := []string{"ed25519", "secp256k1", "p256", "rsa2048"}
 			if tier == "thorough" {
 				algs = fixtures.Algs()
 			}
